@@ -199,7 +199,9 @@ root("recursion",
       cl("clear_at", "S", "rec", 0), cl("clear", "S", "rec"), cl("clear_all", "S", "rec"),
       set_formula("S", "rec", L + "(rec(x - 1) + 1 if x > 0 else r)"), set_cached("S", "rec", False),
       set_cached("S", "rec", True), set_cached("S", "h", False),
-      set_input("S", "rec", [0], 600), set_input("S", "h", [1, 1], 700)],
+      set_input("S", "rec", [0], 600), set_input("S", "h", [1, 1], 700),
+      {"op": "copy_cells", "sp": "S", "c": "rec", "to": "S", "new": "rec2"},
+      cl("clear_at", "S", "rec2", 0), cl("clear_at", "S", "rec2", 1)],
      [q("S", "rec", 2), q("S", "h", 1), q("S", "rec", 0)])
 
 # 9. a name that is a built-in: shadowed by a cells / a reference created later
